@@ -186,6 +186,16 @@ fn run_grid_perm(o: &dyn Obj, m: &str, cs: &Value, as_: &Value, mode: usize) -> 
     out
 }
 
+fn mem_available_kib() -> Option<u64> {
+    let s = std::fs::read_to_string("/proc/meminfo").ok()?;
+    for l in s.lines() {
+        if let Some(r) = l.strip_prefix("MemAvailable:") {
+            return r.trim().trim_end_matches("kB").trim().parse().ok();
+        }
+    }
+    None
+}
+
 fn f64_scaled(x: f64, pow: i32) -> i64 {
     // x * 2^pow is exact in f64 (barring overflow); render it when it is a small integer
     let y = x * (2f64).powi(pow);
@@ -606,6 +616,12 @@ pub fn exec(pool: &mut Pool, ev: &mut Value) {
             let kind = ev["kind"].as_str().unwrap().to_string();
             let base = parse_sym(&ev["base"]).1 as usize;
             let tail: Vec<bool> = expand_segs(&ev["segs"]).into_iter().map(|x| x != 0).collect();
+            // needs base / 8 bytes (plus the index): not attempted on a machine short of memory
+            // (an allocation failure is permitted behaviour and must not look like a crash)
+            if mem_available_kib().map(|k| (k as u128) * 1024 < (base as u128) / 2 + (4u128 << 30)).unwrap_or(false) {
+                set(ev, "out", json!(SKIP));
+                return;
+            }
             match guard(|| make_big(&kind, base, tail)) {
                 Ok(Some(x)) => {
                     pool.objs.insert(o, x);
